@@ -59,7 +59,7 @@ def variant_configs(rng, n):
                 "altitude": float(rng.choice([33.0, 525.0, 1000.0])), "thrown": 60 if i % 2 == 0 else 300,
                 "index": float(rng.uniform(1.2, 3.0)), "lo": 7.0, "hi": float(rng.uniform(8.0, 11.0)), "log_e": float(rng.uniform(7.5, 10.0)),
                 "optical": bool(i % 5 != 4), "radio": bool(i % 7 != 6), "month": int(rng.integers(1, 13)),
-                "det_lat": float(rng.uniform(-1.4, 1.4)), "det_lon": float(rng.uniform(0.1, 3.0)), "ra": float(rng.uniform(0, 6)), "dec": float(rng.uniform(-1, 1)),
+                "det_lat": float(rng.uniform(-1.4, 1.4)), "det_lon": float(rng.choice([rng.uniform(0.1, 3.0), rng.uniform(-3.1, -0.05), rng.uniform(3.2, 6.2)])), "ra": float(rng.uniform(0, 6)), "dec": float(rng.uniform(-1, 1)),
                 "limb": float(np.radians(rng.choice([7.0, 3.0, 12.5]))), "cher": float(np.radians(rng.choice([3.0, 1.5]))),
                 "pe_thr": float(rng.choice([10.0, 4.0])), "snr_thr": float(rng.choice([5.0, 3.0]))}
         if spec["altitude"] == 33.0:
